@@ -244,7 +244,7 @@ def plan(tier):
         Scenario("tmpl-lossless", scen_template, params={"free": 1, "lines": 2, "mode": "lossless",
                                                           "full": 0 if tier == "quick" else 1},
                  cover=["multi-line"], bounds={"lines": 2, "free characters per line": "1 (+ digits, comment char)"}),
-        Scenario("tmpl-normal", scen_template, params={"free": 2 if tier == "quick" else 3, "lines": 1, "mode": "normal"},
+        Scenario("tmpl-normal", scen_template, params={"free": 2, "lines": 1, "mode": "normal"},
                  cover=["line-with-code", "line-with-parameters-or-subcode"], excludable=[KF_LEADING_WS],
-                 bounds={"lines": 1, "free characters": 2 if tier == "quick" else 3}),
+                 bounds={"lines": 1, "free characters": 2}),   # (3 free characters: > 35 min, not finished; outside both tiers)
     ]
